@@ -247,11 +247,14 @@ def boundary_inputs(world, rng, n):
     out = []
     cdlen = world.get("cdlen", 0)
     known = [a["addr"] for a in world["accounts"]]
-    for _ in range(n):
+    for k in range(n):
         words = []
         for _w in range((cdlen + 31) // 32):
             r = rng.random()
-            if r < 0.35:
+            if k == 0 and r < 0.5 and world.get("target") is not None:
+                # one input in which calldata-derived addresses hit the running contract itself
+                words.append(world["target"] if r < 0.35 else rng.choice(known))
+            elif r < 0.35:
                 words.append(rng.choice(BOUNDARY))
             elif r < 0.7:
                 words.append(rng.randrange(0, 8))
